@@ -159,6 +159,11 @@ func (e *Engine) effective(fs *FuncSpec, key string) *effSpec {
 		add(is, e.paramNames(full, is))
 	}
 	add(fs, e.paramNames(key, fs))
+	if !fs.IsIface {
+		for _, c := range fs.Modifies {
+			es.ownMod = append(es.ownMod, effClause{c, fs, e.paramNames(key, fs)})
+		}
+	}
 	return es
 }
 
@@ -529,7 +534,7 @@ func xensuresFalse(spec *effSpec) bool {
 }
 
 func (fc *fnCtx) havocModifies(st *State, spec *effSpec, recv *Val, args []Val) {
-	for _, m := range spec.modifies {
+	for _, m := range spec.modifiesFor() {
 		sc := fc.calleeCtx(st, spec, m.params, recv, args, nil)
 		for _, loc := range m.E.(*CallE).Args {
 			func() {
@@ -691,6 +696,57 @@ func (fc *fnCtx) havocRepresentation(st *State, sc *specCtx, model string, obj V
 		}
 	}
 	walk(ts.Models[model].E)
+	// ownership: a method that changes a model of its receiver may change everything the
+	// receiver owns — its (mutable) fields, the Go maps they hold and the models of the
+	// objects they refer to (before and after the call)
+	if stt != nil {
+		type held struct {
+			t  types.Type
+			tm string
+		}
+		var olds []held
+		for i := 0; i < stt.NumFields(); i++ {
+			f := stt.Field(i)
+			if fc.e.immutableFn(named, f.Name()) != "" || sortOfType(f.Type()) != SU {
+				continue
+			}
+			rn := fieldRegion(named.Origin(), f.Name())
+			cur := fc.region(st, rn, regionArraySort(SU))
+			olds = append(olds, held{f.Type(), sel(cur, obj.T)})
+		}
+		for i := 0; i < stt.NumFields(); i++ {
+			f := stt.Field(i)
+			if fc.e.immutableFn(named, f.Name()) != "" {
+				continue
+			}
+			havocAt(fieldRegion(named.Origin(), f.Name()), regionArraySort(sortOfType(f.Type())), obj.T)
+		}
+		var news []held
+		for i := 0; i < stt.NumFields(); i++ {
+			f := stt.Field(i)
+			if fc.e.immutableFn(named, f.Name()) != "" || sortOfType(f.Type()) != SU {
+				continue
+			}
+			rn := fieldRegion(named.Origin(), f.Name())
+			cur := fc.region(st, rn, regionArraySort(SU))
+			news = append(news, held{f.Type(), sel(cur, obj.T)})
+		}
+		for _, h := range append(olds, news...) {
+			switch h.t.Underlying().(type) {
+			case *types.Map:
+				fc.mapRegions(st)
+				havocAt("map.dom", "(Array U (Array U Bool))", h.tm)
+				havocAt("map.get", "(Array U (Array U U))", h.tm)
+				havocAt("map.card", "(Array U Int)", h.tm)
+			case *types.Interface, *types.Pointer:
+				for m, ms := range fc.e.contracts.Models {
+					if _, ok := fc.regionSort["M."+m]; ok {
+						havocAt("M."+m, regionArraySort(sortByName(ms)), h.tm)
+					}
+				}
+			}
+		}
+	}
 	return true
 }
 
@@ -959,4 +1015,13 @@ func (fc *fnCtx) calleeParamTypes(spec *effSpec) []types.Type {
 		ts = append(ts, sig.Params().At(i).Type())
 	}
 	return ts
+}
+
+// modifiesFor: a concrete function that states its own (representation-level) modifies
+// clauses is framed by those; otherwise by the clauses of the interface contracts.
+func (spec *effSpec) modifiesFor() []effClause {
+	if len(spec.ownMod) > 0 {
+		return spec.ownMod
+	}
+	return spec.modifies
 }
